@@ -121,6 +121,12 @@ add("C17", True, "E2-enum", "exploration",
     "Exhaustive over the stated alphabets only. The sender is an authenticated peer (strongest plaintext sender). Built with cargo feature security.",
     "5.17")
 
+add("C07", True, "E6-e2e", "exploration",
+    "exhaustive enumeration of creation orders x pause positions x durability x topic kind x payload size x deterministic loss x deletion kind, each scenario a fresh process with two real participants driven through the public API only",
+    "All 35 interleavings of P1 < topic < writer < first writes and P2 < topic < reader. Quick: each order with a 4 s pause (discovery goes quiescent) before the later endpoint creation, durability alternating, plus deletion of the reader / the writer / the reader's participant, one no_key, one fragmented and one lossy scenario (41 scenarios, 16 in parallel). Thorough (about 725 scenarios): x {Volatile, TransientLocal} x pause at no / every single position / before both endpoint creations; and on the 10 orders starting P1, P2: payload sizes on both sides of the 1024-byte fragment limit in every residue mod 4 and 5000 bytes, no_key topics, deterministic loss through the network seam (drop datagram k when k mod m = j, six (m, j)), the three deletions. Oracle: both sides report the match within 30 s of the last creation; a second batch (three values, one instance disposal) written while matched arrives; the reader takes exactly the acceptable sequence - TransientLocal: both batches complete and in order; Volatile late joiner: nothing of the first batch; reader created before the writes but match possibly incomplete: any suffix of the first batch - and nothing more; a deletion is observed by the peer as an unmatch within 30 s.",
+    "The interleaving of each participant's event-loop and discovery threads inside a scenario is the operating system's, not enumerated (the enumeration is over the driver's steps and the environment's deterministic loss). A failing scenario is repeated once in a fresh process and reported only if it fails again. Security-enabled participants are not part of this check (the secure pipeline is driven by C16/C17/C19). Three-participant orders are not enumerated.",
+    "5.7")
+
 NOT_YET = {}
 
 def main():
@@ -158,6 +164,7 @@ def main():
         {"name":"E4-sched","path":"/verif/harness/incrate/sched.rs","serves_properties":[k for k,v in C.items() if v[0] and v[1].startswith("E4")],"kind_free_text":"cooperative scheduler over real OS threads with hand-placed scheduling points; stateless DFS with iterative pre-emption bounding (harness/src/c13.rs)"},
         {"name":"E3-hostile","path":"/verif/harness/src/engine.rs","serves_properties":[k for k,v in C.items() if v[0] and v[1].startswith("E3")]+["C09"],"kind_free_text":"subprocess shards with RLIMIT_AS, per-case watchdog, crash survival and (C06) live-heap counting allocator"},
         {"name":"E2-enum","path":"/verif/harness/src/engine.rs","serves_properties":[k for k,v in C.items() if v[0] and v[1].startswith("E2")],"kind_free_text":"mixed-radix bounded-exhaustive enumeration of finite input alphabets against the real code"},
+        {"name":"E6-e2e","path":"/verif/harness/src/c07.rs","serves_properties":[k for k,v in C.items() if v[0] and v[1].startswith("E6")],"kind_free_text":"exhaustive enumeration of public-API driver scripts (creation orders, pause positions, configurations, deterministic loss), each run as a fresh process with real participants; failing scenarios repeated once"},
       ],
       "checks": checks,
       "not_applicable": na,
